@@ -465,6 +465,40 @@ pub fn gen_c10(out: &mut Out, seed: u64, thorough: bool) {
         let got = run_case(&case, 0xA5);
         emit(out, &case, 0xA5, &got, " check=uniform", "uniform-extreme");
     }
+    // structured sweep: every pixel type x back-end x single pass (horizontal only / vertical only) x window
+    // lengths 3 .. 35 (every residue of the kernel length mod 16) x row / column counts 1, 3, 5, 6 (every
+    // residue mod 4: four-row blocks and leftover rows) x a value in the upper half of the range and the maximum
+    for (ti, &pt) in ALL_TYPES.iter().enumerate() {
+        let kind = pt_kind(pt);
+        let ncomp = pt_comps(pt);
+        for (ext_name, ext) in crate::util::exts() {
+            for s in 1..=17u32 {
+                for horizontal in [true, false] {
+                    let other = [1u32, 3, 5, 6][((s + ti as u32) % 4) as usize];
+                    let (sw, sh, dw, dh) = if horizontal { (3 * s, other, 3, other) } else { (other, 3 * s, other, 3) };
+                    let mut case = base_case(&mut rng, pt, sw, sh, dw, dh);
+                    case.ext_name = ext_name;
+                    case.ext = ext;
+                    case.alg = AlgSpec::conv(1 + (s as usize % 2) * 2); // Bilinear / CatmullRom
+                    case.crop = CropSpec::None;
+                    case.alpha = false;
+                    let hi = s % 2 == 0;
+                    let px: Vec<u64> = (0..ncomp)
+                        .map(|c| match kind {
+                            Kind::U8 => if hi { 255 } else { 129 + c as u64 },
+                            Kind::U16 => if hi { 65535 } else { 32769 + 257 * c as u64 },
+                            Kind::I32 => if hi { 0x7fff_ffff } else { 0xc000_0001 },
+                            Kind::F32 => if hi { 1.0f32.to_bits() as u64 } else { 0.7f32.to_bits() as u64 },
+                        })
+                        .collect();
+                    case.sbuf = (0..(sw * sh) as usize).flat_map(|_| px.clone()).collect();
+                    let got = run_case(&case, 0xA5);
+                    out.count("uniform-sweep");
+                    emit(out, &case, 0xA5, &got, " check=uniform", "uniform-sweep");
+                }
+            }
+        }
+    }
     let n = if thorough { 16000 } else { 3500 };
     for i in 0..n {
         let pt = ALL_TYPES[i % 13];
